@@ -257,4 +257,52 @@ theorem janitor_keeps (c0 : Cfg) (ops : List Op) (now : Int) (choice : List Key)
   simp only [State.janitor]
   exact lruEvict_noop _ _ _ h
 
+/-- **The least recently used entries are the ones evicted.**  Whatever the history, the order in
+which `sync.Map.Range` hands the entries to the heap, and the way ties are broken: when the entries
+left by the time step exceed `max_cache_size`, a janitor run leaves exactly `max_cache_size` entries,
+and no evicted entry was used (looked up, or stored: `lastAccess`) more recently than a surviving one. -/
+theorem janitor_evicts_least_recently_used (c0 : Cfg) (ops : List Op) (now : Int) (choice : List Key) :
+    let w := (run (start c0) ops).1
+    let kept := timeEvict w.cfg now w.st.entries
+    let after := (w.st.janitor w.cfg now choice).entries
+    w.cfg.maxSize > 0 → (kept.length : Int) > w.cfg.maxSize →
+    after.length = w.cfg.maxSize.toNat ∧
+    ∀ p ∈ kept, p ∉ after → ∀ q ∈ after, p.2.lastAccess ≤ q.2.lastAccess := by
+  intro w kept after hmax hover
+  have hkn : KN kept := by
+    have h0 : KN w.st.entries := run_KN ops (start c0) (by simp [KN, start, State.empty])
+    simp only [kept, timeEvict]; split
+    · exact h0.of_filter _
+    · exact h0
+  obtain ⟨h1, _, h3⟩ := lruEvict_full w.cfg kept (choice.filter fun c => (find kept c).isSome) hkn hmax hover
+  exact ⟨h1, h3⟩
+
+/-- the heap selection itself (`buildMinHeap`, `heapifyMin`, the extraction loop), on any list of
+entries with distinct keys and any number `k` of victims below the list length, returns `k` distinct
+stored keys none of which was used more recently than an entry it leaves -/
+theorem heap_selects_oldest (es : List (Key × Entry)) (hkn : KN es) (k : Nat) (hk : k < es.length) :
+    validChoice es k (heapChoice (lruItems es) k) = true :=
+  heapChoice_valid es hkn k hk
+
+/-- what counts as "use": a lookup that finds the entry stamps it with the instant of the lookup,
+an insert stamps the new entry with the instant of the insert -/
+theorem lookup_and_insert_stamp_last_access :
+    (∀ (cfg : Cfg) (now : Int) (ign : Bool) (e e' : Entry) (r : LRes),
+      lookupEntry cfg now ign e = (some e', r) → e'.lastAccess = now) ∧
+    (∀ (cfg : Cfg) (id : Nat) (now : Int) (key : Key) (host : List Char) (q : Nat) (ttl : Int) (a n ns : Nat),
+      (insEntry cfg id now key host q ttl a n ns).lastAccess = now) :=
+  ⟨fun _ _ _ _ _ _ h => (lookupEntry_preserves h).2.2.2.2.2.2.2.1, fun _ _ _ _ _ _ _ _ _ _ => rfl⟩
+
+-- non-vacuity: limit 1; `a` stored at 0 and looked up at 5 s, `b` stored at 1 s: `b` goes.
+-- (items handed to the heap in either order)
+example :
+    let c := Cfg.normalize true 0 1 []
+    let ops := [Op.insert 0 ['a'] ['a'] 1 100 1 1 0 false, Op.insert (1 * SEC) ['b'] ['b'] 1 100 2 1 0 false,
+      Op.lookup (5 * SEC) ['a'] false]
+    let w := (run (start c) ops).1
+    (w.st.janitor w.cfg (6 * SEC) []).entries.map (·.1) = [['a']] ∧
+    heapChoice [(['a'], 5), (['b'], 1)] 1 = [['b']] ∧ heapChoice [(['b'], 1), (['a'], 5)] 1 = [['b']] ∧
+    heapChoice [(['x'], 3), (['y'], 1), (['z'], 2), (['u'], 7), (['v'], 0)] 2 = [['y'], ['v']] := by
+  decide
+
 end DaeVerif.C08.Props
